@@ -619,7 +619,7 @@ func (sp *Specs) load(path string, prefixed bool, pkgPath string) error {
 			if q1 != 0 || q2 < 0 {
 				return fail(fmt.Errorf("expected: at \"source text\" assert EXPR  |  at \"source text\" apply lemma(args)"))
 			}
-			where := rest[1 : 1+q2]
+			where := strings.ReplaceAll(rest[1:1+q2], "\\\"", "\"")
 			c, err := mkClause(rest[1+q2+len(kw2):])
 			if err != nil {
 				return fail(err)
